@@ -870,6 +870,138 @@ def probe_activated_inside_a_call_is_dropped():
     print("events of the probe activated inside the call:", res)
     return res != [1, 1]
 
+def stale_generator_answer_is_not_remembered():
+    """C05/C07/C02: a generator created while its function was probed and advanced after that probe ended, under another overlay on
+    the same selector: nothing fits the function at that moment, and that answer must not be remembered for later probes."""
+    from ptera import Overlay
+
+    def sf():
+        x = 1
+        yield x
+        x = 2
+        yield x
+
+    with probing("sf > x") as p:
+        p["x"].accum()
+        g = sf()  # created while probed, not started
+    with Overlay.tapping("sf > x"):
+        next(g)
+    with probing("sf > x") as p2:
+        out2 = p2["x"].accum()
+        list(sf())
+    print("later probe on the same selector:", out2)
+    return out2 != [1, 2]
+
+
+def private_names_in_method():
+    """C01: a method using names private to its class (self.__v, __helper, a parameter __k) must keep working once instrumented
+    (the source is compiled again outside of the class body: the names have to be mangled as the class body mangles them)."""
+    class Vault:
+        def __init__(self):
+            self.__v = 5
+
+        def __half(self, k):
+            return k // 2
+
+        def get(self, x, __k=3):
+            w = self.__v + self.__half(x) + __k
+            return w
+
+    want = Vault().get(4)
+    try:
+        with probing("Vault.get > w", env={"Vault": Vault}) as p:
+            seen = p["w"].accum()
+            got = Vault().get(4)
+    except Exception as e:  # noqa
+        print("probed call failed:", type(e).__name__, e)
+        return True
+    print("plain", want, "probed", got, seen)
+    return (want, [want]) != (got, seen)
+
+
+def augmented_attribute_store_is_a_binding():
+    """C04/C02: `self.x += d` binds self.x like `self.x = ...` does: a probe on `K.bump > self.x` gets one event with the value stored
+    and a tweak on it substitutes that value."""
+    from ptera import Overlay, select, tooled
+
+    class K:
+        def __init__(self):
+            self.x = 1
+
+        @tooled
+        def bump(self, d):
+            self.x += d
+            return self.x
+
+    k = K()
+    with probing("K.bump > self.x", env={"K": K}) as p:
+        seen = p["self.x"].accum()
+        k.bump(2)
+    k2 = K()
+    with Overlay.tweaking({select("K.bump > self.x", env={"K": K}): 50}):
+        r = k2.bump(2)
+    print("events", seen, "tweaked call returned", r, "attribute", k2.x)
+    return seen != [3] or (r, k2.x) != (50, 50)
+
+
+def match_statement_under_tooling():
+    """C01/C10/C02: a function with a match statement keeps working once tooled; the names its patterns bind are locals that can be
+    selected, and each binding is reported."""
+    def m1(p):
+        match p:
+            case [a, *rest]:
+                return a, rest
+            case {"k": v, **others}:
+                return v, others
+            case str() as s:
+                return s
+
+    try:
+        full = tooled(m1)([1, 2, 3])
+    except Exception as e:  # noqa
+        print("tooled call failed:", type(e).__name__, e)
+        return True
+    out = {}
+    for name in ("a", "rest", "v", "others", "s"):
+        try:
+            with probing(f"m1 > {name}", env={"m1": m1}) as p:
+                seen = p[name].accum()
+                m1([1, 2, 3]), m1({"k": 1, "z": 2}), m1("q")
+            out[name] = (seen, m1.__ptera_info__[name]["provenance"] if hasattr(m1, "__ptera_info__") else tooled(m1).__ptera_info__[name]["provenance"])
+        except Exception as e:  # noqa
+            out[name] = (type(e).__name__, str(e)[:60])
+    print(full, out)
+    want = {"a": ([1], "body"), "rest": ([[2, 3]], "body"), "v": ([1], "body"), "others": ([{"z": 2}], "body"), "s": (["q"], "body")}
+    return full != (1, [2, 3]) or out != want
+
+
+def provenance_follows_python_scoping():
+    """C10: the recorded provenance agrees with Python's scoping when nested scopes reuse a name or a parameter is bound again."""
+    def f1():
+        g = lambda y: y  # noqa
+        y = 1
+        return g(y)
+
+    def f3(e):
+        try:
+            pass
+        except ValueError as e:  # noqa
+            pass
+        return 1
+
+    def f4(os):
+        import os  # noqa
+        return os
+
+    bad = []
+    for fn, v, want in [(f1, "y", "body"), (f3, "e", "argument"), (f4, "os", "argument")]:
+        got = tooled(fn).__ptera_info__[v]["provenance"]
+        if got != want:
+            bad.append((fn.__name__, v, got, want))
+    print("disagreements (function, variable, recorded, python):", bad)
+    return bool(bad)
+
+
 # case -> properties (the scenario corpus of DESIGN 2.6: every case is replayed natively by the quick check of its properties)
 CASES = {
     "tuple_unpack_generator": ["C01"], "tuple_unpack_dict": ["C01"], "starred_target": ["C01"], "subscript_index_twice": ["C01"],
@@ -887,6 +1019,8 @@ CASES = {
     "completion_error_leaves_probe_active": ["C17", "C05"], "overlay_on_tooled_function_keeps_its_events": ["C05"], "deactivation_inside_a_call_is_undone_at_its_exit": ["C05"],
     "probe_activated_inside_a_call_is_dropped": ["C05"],
     "same_name_constrained_in_two_frames": ["C12"], "bound_method_subselector_drops_record": ["C07"],
+    "private_names_in_method": ["C01"], "match_statement_under_tooling": ["C01", "C10", "C02"], "provenance_follows_python_scoping": ["C10"], "augmented_attribute_store_is_a_binding": ["C04", "C02"],
+    "stale_generator_answer_is_not_remembered": ["C05", "C07", "C02", "C09"],
     "hidden_temporaries_keep_generator_alive": ["C09"], "same_name_at_two_placements": ["C14"],
 }
 
